@@ -3315,10 +3315,12 @@ Octagonal_Shape<T>::simplify_using_context_assign(const Octagonal_Shape& y) {
   // Filter away the case where `x' contains `y'
   // (this subsumes the case when `y' is empty).
   if (x.contains(y)) {
+    // The intersection is `y' itself: it is empty iff `y' is empty
+    // (to be tested before modifying `x', which may be `y' itself).
+    const bool y_is_empty = y.is_empty();
     Octagonal_Shape<T> res(dim, UNIVERSE);
     x.m_swap(res);
-    // The intersection is `y' itself: it is empty iff `y' is empty.
-    return !y.is_empty();
+    return !y_is_empty;
   }
 
   // Filter away the case where `x' is empty.
